@@ -351,7 +351,11 @@ def _close(a, b, tol):
 
 COUPLINGS = {"z": lambda o: 0.5 * o["z"], "x": lambda o: 0.5 * o["x"],
              "zx": lambda o: 0.4 * o["z"] + 0.3 * o["x"]}
-EPSREL = 1e-7
+# truncation far below the tolerance of the comparisons that involve a
+# TEMPO/PT-TEMPO computation (TOL_T): two runs of the same computation can
+# differ by ~100 x epsrel when a singular value sits on the threshold
+EPSREL = 1e-10
+TOL_T = 1e-6
 TOL = 1e-9
 # an unnormalised, complex initial state: in-place normalisation,
 # conjugation or symmetrisation of a caller array all leave a trace on it
@@ -537,7 +541,7 @@ def run_case(case, dec):
                 want = t2.compute((steps + 0.5) * 0.1,
                                   progress_type="silent").states
                 stats["computations"] += 1
-                ok, err = _close(got, want, max(TOL, 100 * EPSREL))
+                ok, err = _close(got, want, TOL_T)
                 log.ev("tempo", bi, op[2], op[3], ok)
                 if not ok:
                     viol("computation_differs_from_fresh_replay",
@@ -601,7 +605,7 @@ def run_case(case, dec):
                     np.array(RHO0),
                     process_tensor=fresh_pt, progress_type="silent").states
                 stats["computations"] += 1
-                ok, err = _close(got, want, max(TOL, 100 * EPSREL))
+                ok, err = _close(got, want, TOL_T)
                 log.ev(k, pi, ok)
                 if not ok:
                     viol("computation_differs_from_fresh_replay",
@@ -775,7 +779,7 @@ def run_case(case, dec):
                 elif what == "bath_two_dt":
                     need_bath()
                     b = baths[0]
-                    tol = max(TOL, 100 * EPSREL)
+                    tol = TOL_T
 
                     def run(bath):
                         tp = oqupy.TempoParameters(dt=dt, epsrel=EPSREL,
@@ -805,7 +809,7 @@ def run_case(case, dec):
                     need_pt()
                     p0 = pts[0]
                     b = baths[p0["bath"]]
-                    tol = max(TOL, 100 * EPSREL)
+                    tol = TOL_T
 
                     def run(pt):
                         chain = oqupy.SystemChain([2, 2])
@@ -899,7 +903,7 @@ def run_case(case, dec):
                     # computations of different length
                     need_bath()
                     b = baths[0]
-                    tol = max(TOL, 100 * EPSREL)
+                    tol = TOL_T
 
                     def mk():
                         return oqupy.TempoParameters(dt=0.1, epsrel=EPSREL)
@@ -972,7 +976,7 @@ def run_case(case, dec):
                 else:  # one TempoParameters object for several computations
                     need_bath()
                     b = baths[0]
-                    tol = max(TOL, 100 * EPSREL)
+                    tol = TOL_T
 
                     def mk():
                         return oqupy.TempoParameters(dt=0.1, epsrel=EPSREL,
@@ -1050,7 +1054,7 @@ def run_case(case, dec):
                 got = consume_system(sysm)
                 want = consume_system(fresh_system())
                 stats["computations"] += 1
-                ok, err = _close(got, want, max(TOL, 100 * EPSREL)
+                ok, err = _close(got, want, TOL_T
                                  if api == "tempo" else 1e-10)
                 log.ev("system_use", si, dti, steps, api, ok)
                 if not ok:
@@ -1108,8 +1112,9 @@ ASSUMPTIONS = [
     "(correlations memo and closures, Bath copy, array conversion sites, "
     "in-place reshapes, AugmentedMPS); holding a reference to a mutable "
     "parameters or control object is not probed",
-    "same algorithm on equal values: tolerance 1e-9 relative (1e-5 for "
-    "computations truncated at epsrel 1e-7)",
+    "same algorithm on equal values: tolerance 1e-9 relative for method "
+    "evaluations, 1e-6 for computations that involve a TEMPO/PT-TEMPO run "
+    "truncated at epsrel 1e-10",
 ]
 
 
